@@ -64,17 +64,26 @@ wstran_pipe_send_cb(void *arg)
 	nni_aio *taio = &p->txaio;
 	nni_aio *uaio;
 
+	int rv;
+
 	nni_mtx_lock(&p->mtx);
 	uaio          = p->user_txaio;
 	p->user_txaio = NULL;
 
-	if (uaio != NULL) {
-		int rv;
-		if ((rv = nni_aio_result(taio)) != 0) {
+	if ((rv = nni_aio_result(taio)) != 0) {
+		// The message was not sent, and is still attached to our
+		// aio.  Give it back to the sender if there still is one,
+		// otherwise (canceled) it is ours to release.
+		nni_msg *msg = nni_aio_get_msg(taio);
+		nni_aio_set_msg(taio, NULL);
+		if (uaio != NULL) {
+			nni_aio_set_msg(uaio, msg);
 			nni_aio_finish_error(uaio, rv);
 		} else {
-			nni_aio_finish(uaio, 0, 0);
+			nni_msg_free(msg);
 		}
+	} else if (uaio != NULL) {
+		nni_aio_finish(uaio, 0, 0);
 	}
 	nni_mtx_unlock(&p->mtx);
 }
